@@ -135,6 +135,33 @@ def faults(rnd, lang):
     return res
 
 
+def step_faults(rnd, lang):
+    """steps texts (the parse_steps / context.execute_steps entry point, and the same under a Scenario line) laid out with blank
+    and comment lines, a table, a doc-string with a blank line inside; one fault at a known line"""
+    K = {"en": ("Given ", "When ", "Then ", "And ", "Examples: e", "Feature: again", "Rule: late", "this is not a step", "Scenario: S"),
+         "de": ("Angenommen ", "Wenn ", "Dann ", "Und ", "Beispiele: e", "Funktionalität: nochmal", "Regel: spät", "das ist kein Schritt", "Szenario: S")}[lang]
+    lines, spots = [], []
+    if rnd.random() < 0.6:
+        lines.append("")                    # the usual first line of a triple-quoted text
+    indent = rnd.choice(["", "    "])
+    for i in range(rnd.randint(1, 4)):
+        lines.append(indent + K[0 if i == 0 else rnd.choice([1, 2, 3])] + "s%d" % i)
+        r = rnd.random()
+        if r < 0.25:
+            lines += [indent + "  | h1 | h2 |", indent + "  | 1 | 2 |"]
+        elif r < 0.45:
+            lines += [indent + '  """', indent + "  doc", "", indent + "  more", indent + '  """']
+        spots.append(len(lines))
+        for _ in range(rnd.choice([0, 0, 1, 1, 2])):
+            lines.append(rnd.choice(["", "", "   ", indent + "# note"]))
+            spots.append(len(lines))
+    res = []
+    for pos in spots:
+        for name, fl in (("examples-in-steps", K[4]), ("second-feature", K[5]), ("rule-in-steps", K[6]), ("text-after-steps", K[7])):
+            res.append((lines[:pos] + [indent + fl] + lines[pos:], pos + 1, name))
+    return res, K[8]
+
+
 def oracle(case, obs):
     n = len(case["text"].splitlines())
     if "crash" in obs:
@@ -226,6 +253,13 @@ def suites(tier, seed):
                 rl[0] = {"en": "Rule: R", "de": "Regel: R"}[lang]
                 flt.append({"entry": "rule", "text": "\n".join(rl) + "\n", "lang": (None if lang == "en" else lang), "fault": [where - off, name]})
 
+    for _ in range(60 if thorough else 15):
+        lang = rnd.choice(["en", "en", "de"])
+        sf, scen_line = step_faults(rnd, lang)
+        for lines, where, name in sf:
+            flt.append({"entry": "steps", "text": "\n".join(lines) + rnd.choice(["", "\n"]), "lang": (None if lang == "en" else lang), "fault": [where, name]})
+            flt.append({"entry": "scenario", "text": "\n".join([scen_line] + lines) + "\n", "lang": (None if lang == "en" else lang),
+                        "fault": [where + 1, name]})
     # the tags entry point: tag text with blank and comment lines, one faulty line at a known place
     for _ in range(120 if thorough else 40):
         tl = [rnd.choice(["@a @b", "@c", "", "   ", "# note", "  @d  # x", "@e"]) for _ in range(rnd.randint(1, 7))]
